@@ -156,7 +156,7 @@ def run_item(item):
     fmt = rng.choice(['json', 'json', 'color-n', 'color-n', 'color', 'plain-n', 'plain-n', 'plain'])
     func_ctx = None
     if fmt in ('color-n', 'plain-n') and rng.random() < 0.3:
-        func_ctx = rng.choice(['-p', '-W'])      # git grep --show-function / --function-context
+        func_ctx = rng.choice(['-p', '-W', '-W+p'])      # git grep --show-function / --function-context / both (then the whole function is listed)
     elif fmt == 'color' and rng.random() < 0.2:
         func_ctx = '-p'                          # the same without -n: there is no number to show in the header either
     model = gen_model(rng, fmt, headers=func_ctx is not None)
@@ -219,7 +219,8 @@ def run_item(item):
     elif delivery == 'stdin-parent-git-grep':
         res = runner.run_delta(args, text.encode(), parent_argv=['git', 'grep', '-n', 'pattern'])
     elif func_ctx:
-        res = runner.run_delta(args, text.encode(), parent_argv=['git', 'grep'] + (['-n'] if fmt.endswith('-n') else []) + [func_ctx, 'pattern'])
+        fopts = [func_ctx] if func_ctx != '-W+p' else rng.choice([['-p', '-W'], ['-W', '-p'], ['-pW'], ['--show-function', '--function-context']])
+        res = runner.run_delta(args, text.encode(), parent_argv=['git', 'grep'] + (['-n'] if fmt.endswith('-n') else []) + fopts + ['pattern'])
     elif delivery == 'stdin-parent-rg':
         res = runner.run_delta(args, text.encode(), parent_argv=['rg', '-n', 'pattern'])
     else:
